@@ -51,7 +51,7 @@ pub const MINIMAL: Profile =
 /// Market + position for one whole action. Invariants assumed (each is established by the
 /// component harnesses): the position's own pool slots contain the position; `p.factor <= F`;
 /// funding indices settled.
-pub fn whole_state<T, const D: u8>(pf: Profile) -> (VPosition<T, D>, Prices<T>)
+pub fn whole_state<T, const D: u8>(pf: Profile, is_long: bool, cl: bool) -> (VPosition<T, D>, Prices<T>)
 where
     T: FixedPointOps<D> + CheckedSub + Copy + kani::Arbitrary + Into<u32> + num_traits::Bounded,
     T::Signed: Num + Copy + kani::Arbitrary,
@@ -101,8 +101,6 @@ where
         m.open_interest_reserve_factor = T::max_value();
         m.max_open_interest = Side2::both(T::max_value());
     }
-    let is_long: bool = kani::any();
-    let cl: bool = kani::any();
     let mut p = VPosition::<T, D>::zero(m, is_long, cl);
     p.size_in_usd = kani::any();
     p.size_in_tokens = kani::any();
@@ -193,12 +191,12 @@ pub fn empty_string_u8(_: &u8) -> String {
     String::new()
 }
 
-fn increase_whole<T, const D: u8>(pf: Profile)
+fn increase_whole<T, const D: u8>(pf: Profile, is_long: bool, cl: bool)
 where
     T: FixedPointOps<D> + CheckedSub + Copy + kani::Arbitrary + Into<u32> + num_traits::Bounded,
     T::Signed: Num + Copy + kani::Arbitrary + Into<i32>,
 {
-    let (mut p, prices) = whole_state::<T, D>(pf);
+    let (mut p, prices) = whole_state::<T, D>(pf, is_long, cl);
     let before = p;
     let increment: T = kani::any();
     let size_delta: T = kani::any();
@@ -226,13 +224,108 @@ where
     core::mem::forget(r);
 }
 
-//@ prop=C07 tier=thorough kind=hold
+//@ prop=C07 tier=experimental kind=hold
 //@ enc=IncreasePosition::execute (whole action: initialize_position_if_empty, get_execution_params, process_collateral, update_total_borrowing, update_open_interest, validate_reserve, validate_open_interest_reserve, will_collateral_be_sufficient, validate)
-//@ bound=T=u8, DECIMALS=1: every pool value, position, deposit, size delta, flat index/collateral price; parameters concrete: no price impact, no fees, borrowing settled, thresholds zero, reserves/caps never binding
-//@ stubs=<u8 as ToString>::to_string -> empty string (only used for the text of InsufficientReserve errors); assumed pre-state invariants: the position's pool slots contain the position, sizes both zero or both positive
+//@ bound=T=u8, DECIMALS=1: long position with long-token collateral; every pool value, position, deposit, size delta, flat index/collateral price; parameters concrete: no price impact, no fees, borrowing settled, thresholds zero, reserves/caps never binding
+//@ stubs=<u8 as SpecToString>::spec_to_string -> empty string (text of InsufficientReserve errors); assumed pre-state invariants: the position's pool slots contain the position, sizes both zero or both positive
 //@ timeout=3600 mem=30
 #[kani::proof]
 #[kani::stub(<u8 as alloc::string::SpecToString>::spec_to_string, empty_string_u8)]
 fn c07_increase_whole_minimal_u8() {
-    increase_whole::<u8, 1>(MINIMAL);
+    increase_whole::<u8, 1>(MINIMAL, true, true);
+}
+
+// ------------------------------------------------------------------------------------------------
+
+fn decrease_whole<T, const D: u8>(pf: Profile, is_long: bool, cl: bool, liquidation: bool)
+where
+    T: FixedPointOps<D> + CheckedSub + Copy + kani::Arbitrary + Into<u32> + num_traits::Bounded,
+    T::Signed: Num + Copy + kani::Arbitrary + Into<i32>,
+{
+    let (mut p, prices) = whole_state::<T, D>(pf, is_long, cl);
+    kani::assume(!p.size_in_usd.is_zero());
+    let before = p;
+    let flags = DecreasePositionFlags {
+        is_insolvent_close_allowed: kani::any(),
+        is_liquidation_order: liquidation,
+        is_cap_size_delta_usd_allowed: kani::any(),
+    };
+    let size_delta: T = kani::any();
+    let withdraw: T = kani::any();
+    let mut pos0 = p;
+    let a = DecreasePosition::try_new(&mut pos0, prices, size_delta, None, withdraw, flags);
+    let Ok(a) = a else {
+        core::mem::forget(a);
+        return;
+    };
+    let r = a.verif_with_position(&mut p).execute();
+    if let Ok(report) = &r {
+        assert_c07_deltas(&before, &p);
+        assert_c13_settle(&before, &p);
+        if report.should_remove() {
+            // a removed position is zero on every dimension
+            assert!(p.size_in_usd.is_zero() && p.size_in_tokens.is_zero() && p.collateral_amount.is_zero());
+            assert!(w(*report.size_delta_usd()) == w(before.size_in_usd));
+            assert!(w(*report.size_delta_in_tokens()) == w(before.size_in_tokens));
+        } else {
+            assert!(!p.size_in_usd.is_zero() && !p.size_in_tokens.is_zero());
+            assert!(w(p.size_in_usd) + w(*report.size_delta_usd()) == w(before.size_in_usd));
+            assert!(w(p.size_in_tokens) + w(*report.size_delta_in_tokens()) == w(before.size_in_tokens));
+        }
+        assert!(p.decreased == 1);
+        if liquidation && w(size_delta) >= w(before.size_in_usd) {
+            // what the order layer requires of a liquidation: it then closes everything
+            assert!(report.should_remove());
+        }
+        // C08: per-token conservation of the whole decrease (no funding in this profile)
+        let out = w(*report.output_amount()) as i32;
+        let sec = w(*report.secondary_output_amount()) as i32;
+        let mut t = true;
+        let mut k = 0;
+        while k < 2 {
+            let mut d = w(*p.market.liquidity.side(t)) as i32 - w(*before.market.liquidity.side(t)) as i32
+                + w(*p.market.claimable_fee.side(t)) as i32 - w(*before.market.claimable_fee.side(t)) as i32
+                + w(*p.market.collateral_sum.get(is_long).side(t)) as i32
+                - w(*before.market.collateral_sum.get(is_long).side(t)) as i32;
+            if report.is_output_token_long() == t {
+                d += out
+                    + w(*report.claimable_collateral_for_holding().output_token_amount()) as i32
+                    + w(*report.claimable_collateral_for_user().output_token_amount()) as i32;
+            }
+            if report.is_secondary_output_token_long() == t {
+                d += sec
+                    + w(*report.claimable_collateral_for_holding().secondary_output_token_amount()) as i32
+                    + w(*report.claimable_collateral_for_user().secondary_output_token_amount()) as i32;
+            }
+            assert!(d == 0);
+            t = false;
+            k += 1;
+        }
+        kani::cover!(report.should_remove(), "closed");
+        kani::cover!(!report.should_remove() && !report.size_delta_usd().is_zero(), "partially decreased");
+        kani::cover!(report.should_remove() && w(size_delta) < w(before.size_in_usd), "promoted to a full close");
+    }
+    core::mem::forget(r);
+}
+
+//@ prop=C07 tier=experimental kind=hold
+//@ enc=DecreasePosition::execute (whole action: check_partial_close, check_close, check_liquidation, process_collateral with the CollateralProcessor, update_total_borrowing, update_open_interest, validate)
+//@ bound=T=u8, DECIMALS=1: long position with long-token collateral, ordinary (non-liquidation) order; every pool value, position, size delta, withdrawal amount, insolvent-close / cap flags, flat index/collateral price; parameters concrete: no price impact, no fees, borrowing settled, thresholds zero
+//@ stubs=none; assumed pre-state invariants: the position's pool slots contain the position, sizes both positive
+//@ timeout=3600 mem=30
+#[kani::proof]
+#[kani::unwind(4)]
+fn c07_decrease_whole_minimal_long_u8() {
+    decrease_whole::<u8, 1>(MINIMAL, true, true, false);
+}
+
+//@ prop=C09 tier=experimental kind=hold
+//@ enc=DecreasePosition::execute (whole action) with is_liquidation_order
+//@ bound=T=u8, DECIMALS=1: as c07_decrease_whole_minimal_long_u8 for a liquidation order
+//@ stubs=none
+//@ timeout=3600 mem=30
+#[kani::proof]
+#[kani::unwind(4)]
+fn c09_liquidation_whole_minimal_long_u8() {
+    decrease_whole::<u8, 1>(MINIMAL, true, true, true);
 }
